@@ -1,5 +1,6 @@
 """C16 — Directory root CID depends only on final entries and configuration (spec/Directory, Strict = TRUE)."""
 import importlib.util, json, os
+import concurrent.futures as cf
 
 import vlib
 
@@ -37,32 +38,38 @@ def run(ctx):
                        "base configuration (links/block/disabled; threshold = size of {a,b} -1/0/+1 or of {a,b,c}; global or "
                        "per-directory; max-links); all other configurations by TLC -simulate (40 steps); random natural-name "
                        "histories.  non-trivial = run with at least two representation changes")
+    ctx.specdir("Directory")
+    ex = cf.ThreadPoolExecutor(max_workers=6)
     # ---- M: the defect-free logic satisfies the property; the gate alone breaks the rule; as-built model is type-safe
-    ctx.tlc_mc("Directory", "Directory.tla", "MCDirectory.cfg", timeout=2400, coverage=not q, allow_zero=("ResetTo",))
-    r = ctx.tlc_mc("Directory", "Directory.tla", "MCDirectoryDev.cfg", timeout=1200, expect_violation="ShardedIffRuleStrict")
-    if r["violated"] != "ShardedIffRuleStrict":
-        ctx.broken("the model with the size-change gate does not expose the hysteresis (violated=%s)" % r["violated"])
-    if not q:
-        ctx.tlc_mc("Directory", "Directory.tla", "MCDirectoryAllDevs.cfg", timeout=3000)
-    # ---- G
-    behs = ctx.tlc_gen("Directory", "GenDirectory.tla", "GenDirectory16D4.cfg" if q else "GenDirectory16D5.cfg",
-                       timeout=3000, workers=4)
-    sims = ctx.tlc_gen("Directory", "GenDirectory.tla", "GenDirectorySim16.cfg", simulate=10 if q else 100,
-                       depth=41 * (3 if q else 8) + 1, timeout=1200)
+    f_mc = ex.submit(ctx.tlc_mc, "Directory", "Directory.tla", "MCDirectory.cfg", timeout=2400, coverage=not q,
+                     allow_zero=("ResetTo",), workers=4 if q else 8)
+    f_dev = ex.submit(ctx.tlc_mc, "Directory", "Directory.tla", "MCDirectoryDev.cfg", timeout=1200, workers=2,
+                      expect_violation="ShardedIffRuleStrict")
+    f_all = None if q else ex.submit(ctx.tlc_mc, "Directory", "Directory.tla", "MCDirectoryAllDevs.cfg", timeout=3000, workers=8)
+    # ---- G generators + harness build, concurrently
+    f_beh = ex.submit(ctx.tlc_gen, "Directory", "GenDirectory.tla", "GenDirectory16D4.cfg" if q else "GenDirectory16D5.cfg",
+                      timeout=3000, workers=4)
+    f_sim = ex.submit(ctx.tlc_gen, "Directory", "GenDirectory.tla", "GenDirectorySim16.cfg", simulate=8 if q else 100,
+                      depth=41 * (3 if q else 8) + 1, timeout=1200)
+    f_d6 = None if q else ex.submit(ctx.tlc_gen, "Directory", "GenDirectory.tla", "GenDirectory16D6One.cfg", timeout=3000, workers=4)
+    f_bin = ex.submit(H.build, ctx)
+    behs, sims, binp = f_beh.result(), f_sim.result(), f_bin.result()
     if not behs or not sims:
         return
     total = len(behs)
     if q:
-        behs = ctx.rng.sample(behs, min(len(behs), 3500))
+        behs = ctx.rng.sample(behs, min(len(behs), int(os.environ.get("VERIF_C16_SAMPLE", "2500"))))
     else:
-        d6 = ctx.tlc_gen("Directory", "GenDirectory.tla", "GenDirectory16D6One.cfg", timeout=3000, workers=4)
-        behs += ctx.rng.sample(d6, min(len(d6), 30000))
+        d4 = ctx.tlc_gen("Directory", "GenDirectory.tla", "GenDirectory16D4.cfg", timeout=3000, workers=4)   # exhaustive
+        d6 = f_d6.result()
+        behs = d4 + ctx.rng.sample(behs, min(len(behs), 40000)) + ctx.rng.sample(d6, min(len(d6), 15000))
         ctx.cov["exhaustive"] = True
     ctx.log("G: %d of %d enumerated histories + %d simulated" % (len(behs), total, len(sims)))
     behs += sims
-    binp = H.build(ctx)
-    recs = H.record(ctx, binp, "TestVerifC16", behs, name="g16", timeout=6000)
-    if recs is None:
+    recs = H.record(ctx, binp, "TestVerifC16", behs, name="g16", timeout=6000, parts=1 if q else 6)
+    # ---- T: random histories over natural names (recorded now, validated together with G)
+    rr = H.record(ctx, binp, "TestVerifC16", None, name="t16", env=dict(C16_RUNS=25 if q else 500, C16_LEN=40, C16_NAMES=8))
+    if recs is None or rr is None:
         return
     ctx.sample(dict(cfg=behs[len(behs) // 3]["cfg"], ops=behs[len(behs) // 3]["ops"]))
 
@@ -70,7 +77,7 @@ def run(ctx):
         modes = [e["mode"] for e in run]
         return sum(1 for a, b in zip(modes, modes[1:]) if a != b) >= 2
     H.nontrivial_runs(ctx, recs, switches)
-    H.validate_runs(ctx, recs, "TraceDirectory.cfg", "g16", chunk=12000)
+    H.nontrivial_runs(ctx, rr, switches)
 
     def corrupt(run):          # a conversion to HAMT reported as "stayed basic"
         idx = [i for i in range(2, len(run)) if run[i]["mode"] == "hamt" and run[i - 1]["mode"] == "basic"]
@@ -80,11 +87,12 @@ def run(ctx):
         bad = [dict(e) for e in run]
         bad[i]["mode"] = "basic"
         return bad, i
-    H.negative_control(ctx, recs, "TraceDirectory.cfg", "g16", corrupt)
-    # ---- T
-    rr = H.record(ctx, binp, "TestVerifC16", None, name="t16",
-                  env=dict(C16_RUNS=40 if q else 1500, C16_LEN=40, C16_NAMES=8))
-    if rr is None:
-        return
-    H.nontrivial_runs(ctx, rr, switches)
-    H.validate_runs(ctx, rr, "TraceDirectory.cfg", "t16", chunk=12000)
+    f_neg = ex.submit(H.negative_control, ctx, recs, "TraceDirectory.cfg", "g16", corrupt)
+    H.validate_runs(ctx, recs + rr, "TraceDirectory.cfg", "g16+t16", chunk=6000 if q else 15000)
+    f_neg.result()
+    r = f_dev.result()
+    if r["violated"] != "ShardedIffRuleStrict":
+        ctx.broken("the model with the size-change gate does not expose the hysteresis (violated=%s)" % r["violated"])
+    f_mc.result()
+    if f_all:
+        f_all.result()
